@@ -190,6 +190,7 @@ def ex_history(ctx, fc, cfg, ops, fresh_cache=None):
 
 def _run_history(ctx, fc, cfg, ops, tmp, cache):
     rc = {"exec": "history", "args": {"fc": fc, "cfg": cfg, "ops": list(ops)}}
+    ctx.current_case = rc
     M = reference(fc, cfg)
     N = len(M)
     mean = grid_ref(M, fc)
